@@ -87,6 +87,9 @@ class Check:
         full_key = '%s|%s' % (rid, key)
         v = {'property': self.prop, 'rule': rid, 'rule_text': r['text'], 'key': full_key,
              'at': loc, 'message': message, 'facts': facts or {}}
+        if any(x['key'] == full_key for x in self.violations) or \
+                any(x['key'] == full_key for x in self.known_hits):
+            return
         kn = self.known.get((self.prop, full_key))
         if kn is not None:
             v['known'] = kn.get('what', '')
